@@ -169,6 +169,42 @@ def main(ck, tier, w):
             if probs:
                 ck.violation('; '.join(probs), {'index': r, 'hash_order': 'competitors sort %s the active blocks' % ('before' if variant else 'after'),
                                                 'callback': cb, 'start_end': rg, 'observed': res_.brief(), 'trace_verdict': v, 'tags': []})
+    # ---- an index of realistic size: a node stopped during initial block download (a header-only block right above the tip with
+    # hundreds of stored but unconnectable blocks on top of it) plus a long reorged-out branch - thousands of candidates, most of
+    # them ranking above the real tip; repeated with several pool sizes (the choice of the tip is no race)
+    A, S0, S1, TOP = (400, 101, 300, 300) if quick else (1500, 101, 1200, 1000)
+    recs = [{'id': h, 'h': h, 'prev': h - 1, 'data': True, 'valid': 5, 'failed': False} for h in range(A + 1)]
+    prev = S0 - 1
+    for h in range(S0, S1 + 1):
+        recs.append({'id': 10000 + h, 'h': h, 'prev': prev, 'data': True, 'valid': 5, 'failed': False})
+        prev = 10000 + h
+    recs.append({'id': 20000, 'h': A + 1, 'prev': A, 'data': False, 'valid': 2, 'failed': False})
+    prev = 20000
+    for k in range(TOP):
+        recs.append({'id': 20001 + k, 'h': A + 2 + k, 'prev': prev, 'data': True, 'valid': 3, 'failed': False})
+        prev = 20001 + k
+    big = {'recs': recs, 'tip': A, 'active': list(range(A + 1))}
+    bd, bblocks = build_index(w, big, 1)
+    want = [btc.hexrev(bblocks[h]['hash']) for h in range(A + 1)]
+
+    def brun(i):
+        import shutil
+        cl = w.sub('cl')
+        shutil.copytree(bd.path, cl)
+        r = run.run_parser(cl, 'csvdump', dump=w.mk('out'), threads=[4, 8, 16, 3, 64, None][i % 6], timeout=300)
+        shutil.rmtree(cl, ignore_errors=True)
+        return i, r
+    for i, r in chains.pmap(brun, range(12 if quick else 40), 4):
+        ck.evals()
+        got = chains.csv_col(next((v for k, v in r.files.items() if k.startswith('blocks-')), b''), 0)
+        ck.distinct(('big-ibd', i % 6))
+        if r.rc != 0 or got != want or r.listing != sorted('%s-0-%d.csv' % (f, A) for f in ('blocks', 'transactions', 'tx_in', 'tx_out')):
+            ck.violation('index of %d records (active chain 0..%d, reorged-out branch %d..%d, header-only block at %d with %d stored blocks on top), run %d: exit %d, '
+                         '%d blocks delivered up to %s, dump folder %s; first differing height %s' % (
+                             len(recs), A, S0, S1, A + 1, TOP, i, r.rc, len(got), got[-1:] and len(got) - 1, r.listing,
+                             next((h for h in range(min(len(got), len(want))) if got[h] != want[h]), None)),
+                         {'records': len(recs), 'run': i, 'observed': r.brief(), 'tags': []})
+
     ck.assumptions += ['Quiescent: the node was not stopped in the middle of a chain activation',
                        'UniqueBestTip: no second fully validated block ties with the active tip (the block index alone cannot '
                        'tell them apart; Core keeps the tip in the chainstate database)',
